@@ -219,3 +219,11 @@ Fixpoint fresh_run (st : state) (tr : list (Z * event)) : Prop :=
   end.
 
 Definition times_from (t : Z) (tr : list (Z * event)) : Prop := forall now ev, In (now, ev) tr -> (t <= now)%Z.
+
+(* reachable states when, in addition, every Acquire call carries a goroutine id that no pending
+   caller has (goroutine identity) *)
+Inductive reachable_u (c : metric) : state -> Prop :=
+| reach_u_init : reachable_u c (init c)
+| reach_u_step st now ev : reachable_u c st -> ev_wf ev ->
+    match ev with ECall id _ _ _ => ~ In id (map wid (pending st)) | _ => True end ->
+    reachable_u c (fst (step true st now ev)).
